@@ -34,7 +34,7 @@ def main(tier, seed):
     chk = Check("C02", tier, seed)
     chk.assumptions = list(ASSUMPTIONS)
     c02.obligations(chk)
-    if tier == "thorough":
+    if tier in ("quick", "thorough"):      # the replay on the real code takes < 1 s: run it in both tiers (never counted as proved)
         fails, n, d = c02_concrete.search(stop_at=3)
         chk.bounded.append({"name": "bounded cross-check: type pool x {default, stdlib json, tagging codec} on the real entry points",
                             "evaluations": n, "distinct_nontrivial": d, "failures": len(fails),
